@@ -970,6 +970,7 @@ func genC19(c *Ctx) {
 		c.Count("threatreal=" + strings.Fields(res + " x")[0])
 		if ms := legalMoves(p); len(ms) > 0 && c.R.Chance(1, 3) {
 			c.Count("threatstack=" + clip(c.Emit("threatstack "+tok+" "+encMove(ms[c.R.Intn(len(ms))])+" "+encMove(ms[c.R.Intn(len(ms))])), 3))
+			c.Emit("threatclone " + tok + " " + encMove(ms[c.R.Intn(len(ms))]) + " " + encMove(ms[c.R.Intn(len(ms))]))
 		}
 		if c.R.Chance(1, 4) || strings.HasPrefix(res, "ok") && c.R.Chance(1, 2) {
 			c.Emit("sthreatreal " + tok)
